@@ -7,7 +7,8 @@ from harness.core import is_exc
 ID = "C04"
 RULE = ("random light-weight edge lists: N<=8 vertices incl. joint degree zero, <=12 rows with self-loops, repeated and "
         "reversed pairs, occasionally vertices >= N or short name/id columns (malformed stream), plus lists produced by "
-        "the real fast generator under scripted shuffles; observed: node set with annotations, edge set with both "
+        "the real fast generator under scripted shuffles; a quarter of the cases are HISTORIES (convert, caller damages the "
+        "returned network and grows the edge-list object in place, convert the same object again); observed: node set with annotations, edge set with both "
         "attributes, reverse conversion or its exception class, input object unchanged; non-trivial = list with >=2 rows "
         "and at least one vertex of degree zero or a repeated/reversed pair; distinct by full input")
 EXHAUSTIVE = {"quick": False, "thorough": False}
@@ -108,18 +109,34 @@ def _generated_case(rng):
             "names": [int(t[1:]) for t in el.topologies], "ids": list(el.motif_id)}
 
 
+def _with_second(rng, c):
+    """history: convert, let the caller mutate the returned network and grow the edge list IN PLACE, convert the
+    same edge-list object again"""
+    N = len(c["jds"])
+    extra = []
+    for _ in range(rng.randint(0, 3)):
+        extra.append([rng.randint(0, N - 1), rng.randint(0, N - 1)])
+    c["second"] = {"append_edges": extra, "append_names": [rng.randint(0, 2) for _ in extra],
+                   "append_ids": [rng.randint(20, 25) for _ in extra],
+                   "damage_first_result": rng.random() < 0.7}
+    return c
+
+
 def generate(rng, tier):
     n = 500 if tier == "quick" else 6000
     for i in range(n):
         r = i % 10
         if r < 4:
-            yield _simple_case(rng)
+            c = _simple_case(rng)
         elif r < 7:
-            yield _rand_case(rng, False)
+            c = _rand_case(rng, False)
         elif r < 9:
-            yield _generated_case(rng)
+            c = _generated_case(rng)
         else:
-            yield _rand_case(rng, True)
+            c = _rand_case(rng, True)
+        if i % 4 == 1 and len(c["names"]) == len(c["edges"]) == len(c["ids"]):
+            c = _with_second(rng, c)
+        yield c
 
 
 def _mk_edgelist(case):
@@ -132,14 +149,9 @@ def _mk_edgelist(case):
     return el
 
 
-def impl(case):
-    from gcmpy.network.edge_list_to_network import EdgeListToNetwork
+def _observe(el, net):
     from gcmpy.network.network_to_edge_list import NetworkToEdgeList
     from gcmpy.names.network_names import NetworkNames
-    el = _mk_edgelist(case)
-    before = copy.deepcopy((el.joint_degrees, el.edge_list, el.topologies, el.motif_id))
-    with oracles.forbid_random():
-        net = EdgeListToNetwork.convert(el)
     G = net.G
     nodes = []
     for v in sorted(G.nodes()):
@@ -154,7 +166,6 @@ def impl(case):
                     a.get(NetworkNames.MOTIF_IDS, -1)]
         edges.append([[min(u, v), max(u, v)], attr])
     edges.sort()
-    unchanged = before == (el.joint_degrees, el.edge_list, el.topologies, el.motif_id)
     try:
         back = NetworkToEdgeList.convert(net)
         cols = [[list(j) for j in back.joint_degrees], [list(e) for e in back.edge_list],
@@ -164,15 +175,49 @@ def impl(case):
                    "parallel": len(cols[1]) == len(cols[2]) == len(cols[3])}
     except Exception as e:  # noqa: BLE001
         backobs = {"exc": type(e).__name__}
-    return {"net": [nodes, edges], "back": backobs, "input_unchanged": unchanged}
+    return {"net": [nodes, edges], "back": backobs}
+
+
+def impl(case):
+    from gcmpy.network.edge_list_to_network import EdgeListToNetwork
+    el = _mk_edgelist(case)
+    before = copy.deepcopy((el.joint_degrees, el.edge_list, el.topologies, el.motif_id))
+    with oracles.forbid_random():
+        net = EdgeListToNetwork.convert(el)
+    out = _observe(el, net)
+    out["input_unchanged"] = before == (el.joint_degrees, el.edge_list, el.topologies, el.motif_id)
+    if "second" in case:
+        sec = case["second"]
+        if sec["damage_first_result"] and net.G.number_of_edges() > 0:
+            net.G.remove_edge(*next(iter(net.G.edges())))
+        el.edge_list.extend(tuple(e) for e in sec["append_edges"])
+        el.topologies.extend("t%d" % n for n in sec["append_names"])
+        el.motif_id.extend(sec["append_ids"])
+        with oracles.forbid_random():
+            net2 = EdgeListToNetwork.convert(el)
+        out["second"] = _observe(el, net2)
+    return out
+
+
+def _second_case(case):
+    sec = case["second"]
+    return {"jds": case["jds"], "edges": case["edges"] + sec["append_edges"],
+            "names": case["names"] + sec["append_names"], "ids": case["ids"] + sec["append_ids"]}
+
+
+def _t(c):
+    return [c["jds"], c["edges"], c["names"], c["ids"]]
 
 
 def model_calls(case, impl_obs):
-    return [("c04_run", [case["jds"], case["edges"], case["names"], case["ids"]])]
+    calls = [("c04_run", _t(case))]
+    if "second" in case:
+        calls.append(("c04_run", _t(_second_case(case))))
+    return calls
 
 
-def model_obs(case, raws):
-    net, back = raws[0]
+def _mobs(raw):
+    net, back = raw
     nodes = sorted([v, jd] for v, jd in net[0])
     edges = sorted([e, a] for e, a in net[1])
     if back and back[0] == -1:
@@ -183,9 +228,29 @@ def model_obs(case, raws):
     return {"net": [nodes, edges], "back": b}
 
 
+def model_obs(case, raws):
+    m = _mobs(raws[0])
+    if "second" in case:
+        m["second"] = _mobs(raws[1])
+    return m
+
+
 def compare(case, impl_obs, model):
     if is_exc(impl_obs):
         return f"implementation raised {impl_obs[1]}"
+    d = _cmp1(impl_obs, model)
+    if d:
+        return d
+    if not impl_obs["input_unchanged"]:
+        return "input edge list was modified"
+    if "second" in case:
+        d = _cmp1(impl_obs["second"], model["second"])
+        if d:
+            return "second conversion of the same (grown) edge-list object: " + d
+    return None
+
+
+def _cmp1(impl_obs, model):
     if impl_obs["net"] != model["net"]:
         return f"network differs: impl {impl_obs['net']} model {model['net']}"
     ib, mb = impl_obs["back"], model["back"]
@@ -195,20 +260,36 @@ def compare(case, impl_obs, model):
     else:
         if ib.get("ok") != mb["ok"]:
             return f"reverse conversion differs: impl {ib} model {mb}"
-    if not impl_obs["input_unchanged"]:
-        return "input edge list was modified"
     return None
+
+
+def _chk1(c, obs):
+    nodes, edges = obs["net"]
+    # attributes with a missing half cannot be expressed: the checker sees them as 'no attribute'
+    edges_t = [[e, a if (len(a) == 2 and a[0] >= 0 and a[1] >= 0) else []] for e, a in edges]
+    back = obs["back"]
+    b = [back["cols"]] if "cols" in back else []
+    return ("c04_check", [_t(c), [nodes, edges_t], b])
 
 
 def check_calls(case, impl_obs):
     if is_exc(impl_obs):
         return []
-    nodes, edges = impl_obs["net"]
-    # attributes with a missing half cannot be expressed: the checker sees them as 'no attribute'
-    edges_t = [[e, a if (len(a) == 2 and a[0] >= 0 and a[1] >= 0) else []] for e, a in edges]
-    back = impl_obs["back"]
-    b = [back["cols"]] if "cols" in back else []
-    return [("c04_check", [[case["jds"], case["edges"], case["names"], case["ids"]], [nodes, edges_t], b])]
+    calls = [_chk1(case, impl_obs)]
+    if "second" in case:
+        calls.append(_chk1(_second_case(case), impl_obs["second"]))
+    return calls
+
+
+def _verdict1(obs, raw, what):
+    ok_net, ok_rt = raw
+    if not ok_net:
+        return what + "check_net: network does not satisfy Spec_net (nodes / annotations / edges / once-attributes)"
+    if not ok_rt:
+        return what + "check_roundtrip: back conversion of a simple list lost or changed something (or raised)"
+    if "cols" in obs["back"] and not obs["back"]["parallel"]:
+        return what + "back-converted columns are not parallel"
+    return None
 
 
 def check_verdict(case, impl_obs, raws):
@@ -216,15 +297,13 @@ def check_verdict(case, impl_obs, raws):
         # conversion itself must not raise on well-formed lists
         wf = all(0 <= v < len(case["jds"]) for e in case["edges"] for v in e)
         return f"EdgeListToNetwork.convert raised {impl_obs[1]}" if wf else None
-    ok_net, ok_rt = raws[0]
-    if not ok_net:
-        return "check_net: network does not satisfy Spec_net (nodes / annotations / edges / once-attributes)"
-    if not ok_rt:
-        return "check_roundtrip: back conversion of a simple list lost or changed something (or raised)"
-    if "cols" in impl_obs["back"] and not impl_obs["back"]["parallel"]:
-        return "back-converted columns are not parallel"
+    v = _verdict1(impl_obs, raws[0], "")
+    if v:
+        return v
     if not impl_obs["input_unchanged"]:
         return "input edge list was modified by the conversion"
+    if "second" in case:
+        return _verdict1(impl_obs["second"], raws[1], "second conversion of the same edge-list object after it grew: ")
     return None
 
 
@@ -245,6 +324,10 @@ def shrink(case):
         c["edges"] = case["edges"][:i] + case["edges"][i + 1:]
         c["names"] = case["names"][:i] + case["names"][i + 1:] if len(case["names"]) == n else case["names"]
         c["ids"] = case["ids"][:i] + case["ids"][i + 1:] if len(case["ids"]) == n else case["ids"]
+        yield c
+    if "second" in case:
+        c = dict(case)
+        del c["second"]
         yield c
     N = len(case["jds"])
     if N > 1 and all(v < N - 1 for e in case["edges"] for v in e):
